@@ -43,6 +43,7 @@ fn gen(family: &str, profile: &str, seed: u64, count: usize, size: usize) -> Vec
             }
             "sp" => sp::gen_case(&mut r, profile, size).request(),
             "complete" | "karate" | "gnp" | "gnpstat" => gen::gen_case(&mut r, family, profile, size),
+            "par" if profile == "big" => par::gen_big(&mut r),
             "par" => par::gen_case(&mut r, profile, size).request(),
             "xml" => if profile == "roundtrip" { xml::gen_roundtrip(&mut r, size) } else { xml::gen_malformed(&mut r) },
             "xmlbig" => format!("xmlbig {} {} {}", r.below(1_000_000), r.range(1500, 3500), r.below(2)),
@@ -85,6 +86,7 @@ fn run_line(line: &str) -> String {
         "gnpdet" => guarded(move || gen::observe_gnpdet(&mut t)),
         "degen" => guarded(move || degen::observe(&mut t)),
         "par" => { let c = par::Case::parse(&mut t); guarded(move || par::observe(&c)) }
+        "parbig" => guarded(move || par::observe_big(&mut t)),
         "xml" => guarded(move || xml::observe(&mut t)),
         "xmlbig" => guarded(move || xml::observe_big(&mut t)),
         "esc" => guarded(move || esc::observe(&mut t)),
